@@ -69,10 +69,8 @@ func wireOK(enc, ref []byte) {
 
 func Harness_C16_q_roundtrip_one() {
 	lens := []int{0, 1, 2, 254, 255, 256, 509, 510, 511, 600}
-	if verif.Thorough() {
-		lens = append(lens, 765, 766, 1020, 1024, 1100)
-	}
-	n := lens[verif.Choice("len", len(lens))]
+	_ = lens
+	n := verif.Choice("len", 1101) // every length 0..1100 (the property says 0..1024 exhaustively)
 	tag := verif.U8("tag")
 	val := verif.Bytes("val", n)
 	c := NewTLV8Container()
